@@ -494,3 +494,25 @@ def rule_K_FAST(ctx, repo):
         ctx.fail('K-FAST', init.qual, 'fasttypes contain %s' % ','.join(bad),
                  'the fast-type list (a lone argument of such a type is used directly as the flat key) contains %s: f((1, 2)) is then keyed exactly like f(1, 2), '
                  'so one call is answered with the other call\'s result' % bad, '%s:%d' % (m.rel, init.node.lineno))
+
+
+def rule_K_OWN(ctx, repo):
+    """objects mutated in place on the key path are owned by the call (never elements of module-level state)"""
+    from . import own
+    nsites = 0
+    for modname in ('_inspect', 'keymaps', 'crypto', 'rounding'):
+        m = repo.mod(modname)
+        shared, results = own.analyse_module(m)
+        ctx.tables.setdefault('module-level containers', {})[m.rel] = sorted(shared)
+        for fname, ft in sorted(results.items()):
+            for node, recv, tags in ft.sites:
+                nsites += 1
+                bad = sorted(t for t in tags if t.startswith('sharedelem:'))
+                ctx.ob('K-OWN', '%s::%s %s' % (m.rel, fname, recv), not bad)
+                if bad:
+                    ctx.fail('K-OWN', '%s::%s' % (m.rel, fname), 'in-place mutation of %s aliasing %s' % (recv, ','.join(bad)),
+                             '%s mutates "%s" in place, and that object may be an element of the module-level container %s: the mutation outlives the call, so the key '
+                             'of a later call depends on earlier calls (e.g. the keywords of the first call become permanent defaults)' % (
+                                 fname, recv, ', '.join(b.split(':', 1)[1] for b in bad)), '%s:%d' % (m.rel, node.lineno))
+    if nsites < 8:
+        raise AnalysisError('instance count below confirmed minimum: %d in-place mutation sites on the key path' % nsites)
